@@ -22,7 +22,7 @@ def r1_choice_recording(rule, root=None):
         it_name = flag_name = None
         for s in A.find(fn["body"], "Let"):
             n = A.binding_name(s["pat"])
-            init = A.unparse(s.get("init")).replace(" ", "") if s.get("init") else ""
+            init = A.ftxt(s.get("init")) if s.get("init") else ""
             if n and "choices" in init and "iter_mut()" in init:
                 it_name, it_let = n, s
             if n and init == "false":
@@ -30,7 +30,7 @@ def r1_choice_recording(rule, root=None):
         if it_name is None or flag_name is None:
             rule.lost("%s: `let mut choices = ...iter_mut()` / `let mut simplify = false`" % label)
             continue
-        t = A.unparse(it_let["init"]).replace(" ", "")
+        t = A.ftxt(it_let["init"])
         if ".rev()" in t or "self.0.choices" not in t:
             rule.bad("%s|iter" % label, "the choice iterator must walk the evaluator's own choice array front to back, found `%s`" % t, A.where(fn, it_let))
         else:
@@ -55,7 +55,7 @@ def r1_choice_recording(rule, root=None):
             flag = []
             for _k, left, right, node, env in oreqs:
                 l = A.strip(left)
-                lt = A.unparse(l).replace(" ", "")
+                lt = A.ftxt(l)
                 if lt == "%s.next().unwrap()" % it_name:
                     rec.append((right, env))
                 elif A.ident(l) == flag_name:
@@ -108,12 +108,12 @@ def r3_trace_iff_flag(rule, root=None):
         if e.get("k") == "Call" and A.is_path(e["func"], "Ok") and len(e["args"]) == 1:
             tup = A.strip(e["args"][0])
             if tup.get("k") == "Tuple" and len(tup["elems"]) == 2:
-                o = A.unparse(A.strip(tup["elems"][0])).replace(" ", "")
+                o = A.ftxt(A.strip(tup["elems"][0]))
                 c = A.strip(tup["elems"][1])
                 if c.get("k") == "If" and c.get("else") is not None:
-                    cond = A.unparse(A.strip(c["cond"])).replace(" ", "")
-                    th = A.unparse(c["then"]).replace(" ", "")
-                    el = A.unparse(c["else"]).replace(" ", "")
+                    cond = A.ftxt(A.strip(c["cond"]))
+                    th = A.ftxt(c["then"])
+                    el = A.ftxt(c["else"])
                     if o != "self.0.out":
                         why = "outputs returned are `%s`, not the evaluator's output array" % o
                     elif cond != "simplify":
